@@ -12,24 +12,28 @@ LEVEL_TEXT = ("Lean 4 theorems for every set of distinct integer keys (any sign 
               "history of vector lookups, single lookups of present keys, scalar / per-key assignments, fill, contains and items the "
               "observation trace of the model equals that of a plain dictionary: lookups return the most recently assigned value in "
               "query order, a vector containing an absent key is refused, assignments change the assigned keys only, the key set never "
-              "changes. The hash kernel is re-generated from /repo's source on every run and bridged. Tied to hashtable.py by "
+              "changes. The whole-table functions act on the table's (key, value) list key by key: zeros_like / ones_like give the same "
+              "keys with one value, += number adds it to every value, + / += of two tables over the same key rows adds values key by "
+              "key and is refused for different key rows, == holds exactly when the (key, value) lists are equal (C11_like, C11_add_num, "
+              "C11_add_table, C11_table_eq). The hash kernel is re-generated from /repo's source on every run and bridged. Tied to hashtable.py by "
               "correspondence over key sets x dtypes x moduli x histories with a malformed stream (absent keys that collide with a "
               "bucket / hit an empty bucket).")
 LEVEL_NOTE = ("Trusted: Lean kernel (+ standard axioms); kernel translator (K10); the model is written against the list-of-rows meaning of "
-              "the RaggedArray operations HashTable uses (C02/C03/C04/C08 theorems) and tied by correspondence; zeros_like / ones_like / "
-              "+ / == and HashSet are correspondence-only; a single lookup of an ABSENT key is unspecified by the property (the "
+              "the RaggedArray operations HashTable uses (C02/C03/C04/C08 theorems) and tied by correspondence; value dtypes of the whole-table functions and addition of "
+              "tables built from the same keys in another order (refusing is legitimate) are correspondence-only; a single lookup of an ABSENT key is unspecified by the property (the "
               "library returns the shared scalar or an empty array) and not judged.")
 TECHNIQUE = "Lean 4 refinement proof (induction over the history) to a dictionary; kernel K10 from source; correspondence"
 DESIGN_REF = "7"
-LEAN_MODULES = ["NpsVerif.Props.C11"]
+LEAN_MODULES = ["NpsVerif.Props.C11", "NpsVerif.Props.C11B"]
 KERNELS = ("ht_hash", "ht_mod")
 RULE = ("cases = key set (1..48 distinct keys: small / colliding / negative / +-2**62 / dtype extremes) x key dtype x modulus (None, 1, 2, 3, "
         "7, n, 2n-1, 1000) x initial values (per-key array / scalar) x history of 1..8 operations (vector & single lookup, scalar & "
-        "per-key assignment, fill, contains, HashSet.contains, items / to_dict, zeros_like, ones_like, +, ==) with ~25% malformed "
+        "per-key assignment, fill, contains, HashSet.contains (vector and scalar), items / to_dict, zeros_like, ones_like and writes into "
+        "their results, +, += number / table, == incl. large and nearly equal values) with ~25% malformed "
         "queries; on narrow key dtypes a third of the cases query with int64 arrays incl. absent keys congruent to a present key "
         "modulo 2**bits; distinct = distinct (keys, mod, history); non-trivial = >= 2 keys and >= 2 operations")
 EXHAUSTIVE = {"quick": False, "thorough": False}
-CORRESPONDENCE_ONLY = ["zeros_like / ones_like / + / ==", "value dtypes"]
+CORRESPONDENCE_ONLY = ["value dtypes", "+ of tables built from the same keys in another order"]
 ASSUMPTIONS = ["keys handed to the constructor are distinct (the library's documented precondition)"]
 
 
@@ -303,31 +307,35 @@ def oracle(p):
     return {"k": "trace", "v": trace}
 
 
-LEAN_OPS = ("getvec", "get1", "setscalar", "seteach", "fill", "contains", "items", "hs_contains")
+LEAN_OPS = ("getvec", "get1", "setscalar", "seteach", "fill", "contains", "items", "hs_contains", "zeros_like", "ones_like", "like_set",
+            "iadd_num", "iadd_table", "add_self", "eq_self", "eq_other", "eq_big", "hs_contains1")
 
 
 def lean_request(p):
     # HashSet(keys).contains is the `contains` of a table over the same keys (its values play no role)
     if isinstance(p["vals"], float):
         return None          # a non-integral shared value: the model's values are integers
-    if any(o["t"] in ("iadd_num", "iadd_table") for o in p["ops"]):
-        return None          # += changes the table and is not an operation of the Lean model (implementation vs oracle only)
-    ops = [dict(o, t="contains") if o["t"] == "hs_contains" else o for o in p["ops"] if o["t"] in LEAN_OPS]
-    return {"op": "HT.run", "keys": p["keys"], "vals": p["vals"], "mod": p["mod"], "ops": ops}
+    if p["vdtype"] == "float64" and any(o["t"] == "iadd_table" and not o["scalar"] for o in p["ops"]) and isinstance(p["vals"], list):
+        pass                 # float per-key values hold integers here: fine for the integer model
+    ops = [dict(o, t="contains") if o["t"] == "hs_contains" else o for o in p["ops"]]
+    ops = [dict(o, scalar=bool(o["scalar"] or not isinstance(p["vals"], list))) if o["t"] == "iadd_table" else o for o in ops]
+    return {"op": "HT.runx", "keys": p["keys"], "vals": p["vals"], "mod": p["mod"], "ops": ops}
 
 
 def decode_lean(p, resp):
     def conv(j):
         if isinstance(j, dict) and j.get("refuse"):
             return refuse()
-        it = iter(j)
         trace = []
-        for o in p["ops"]:
-            if o["t"] in LEAN_OPS:
-                x = next(it)
-                trace.append({"k": "refuse"} if isinstance(x, dict) else x)
-            else:
+        for o, x in zip(p["ops"], j):
+            if x is None or o["t"] not in LEAN_OPS:
                 trace.append(None)        # not modelled in Lean
+            elif o["t"] == "get1" and isinstance(x, dict):
+                trace.append({"k": "refuse"})
+            elif isinstance(x, dict):
+                trace.append(False if o["t"] in ("setscalar", "seteach") else {"k": "refuse"})
+            else:
+                trace.append(x)
         return {"k": "trace", "v": trace}
     return conv(resp["L"]), conv(resp["S"])
 
